@@ -262,6 +262,9 @@ func exchangeCase(c *run.Ctx, script []int, withErrFix bool) bool {
 			fix = append(fix, mqtttest.ExchangeBlock{})
 		case 4:
 			fix = append(fix, nil)
+		case 5:
+			// only zero stands for "indefinite": a negative delay is a pause of no time
+			fix = append(fix, mqtttest.ExchangeBlock{Delay: -time.Millisecond})
 		}
 	}
 	// which scripts the constructor must refuse
@@ -302,7 +305,7 @@ func exchangeCase(c *run.Ctx, script []int, withErrFix bool) bool {
 	}
 	staysOpen := false
 	for i, k := range script {
-		if k == 2 || k == 3 {
+		if k == 2 || k == 3 || k == 5 {
 			if k == 3 {
 				staysOpen = true
 			}
@@ -363,6 +366,19 @@ func readSlicesCases(c *run.Ctx) bool {
 		m1, t1, e1 := stub()
 		if !bytes.Equal(m1, orig) || string(t1) != fix.Topic || e1 != fix.Err {
 			c.Violate("readslices-stub-result", fmt.Sprintf("stub returned (%q, %q, %v)", m1, t1, e1), nil)
+			return false
+		}
+		// a private copy is private also against its neighbour: growing the
+		// message must not reach into the topic of the same call
+		topicBefore := string(t1)
+		_ = append(m1, 'Z')
+		if string(t1) != topicBefore {
+			c.Violate("readslices-stub-aliases", fmt.Sprintf("appending to the returned message changed the returned topic from %q to %q", topicBefore, t1), nil)
+			return false
+		}
+		_ = append(t1, 'Z')
+		if !bytes.Equal(m1, orig) {
+			c.Violate("readslices-stub-aliases", fmt.Sprintf("appending to the returned topic changed the returned message to %q", m1), nil)
 			return false
 		}
 		for i := range m1 {
@@ -549,7 +565,7 @@ func init() {
 			c.Count("subscribe_mock_pairs", m)
 			// exchange stub scripts
 			k := 0
-			for si, sc := range seqs([]int{0, 1, 2, 3, 4}, 0, 3) {
+			for si, sc := range seqs([]int{0, 1, 2, 3, 4, 5}, 0, 3) {
 				if si%parts != part {
 					continue
 				}
